@@ -253,21 +253,40 @@ Inductive op :=
 | ORemoveContext (c : cid)
 | OTriples (p : pat) (ca : ctxarg) (kw : option garg) (du : bool)
 | OQuads (p : pat) (ca : ctxarg)
-| OContains (p : pat) (ca : ctxarg) (du : bool).
+| OContains (p : pat) (ca : ctxarg) (du : bool)
+| OContexts (t : triple).                (* Dataset.graphs(triple) / ConjunctiveGraph.contexts(triple) *)
 
-Inductive res := RNone | RTriples (l : list triple) | RQuads (l : list quad) | RBool (b : bool) | RExc.
+Inductive res :=
+| RNone                          (* returned None *)
+| RSelf                          (* returned the front-end object itself *)
+| RNames (l : list cid)          (* graph objects of THIS store, by name *)
+| RTriples (l : list triple) | RQuads (l : list quad) | RBool (b : bool) | RExc.
+
+(* the name of the graph Dataset.graph / add_graph returns *)
+Definition ds_graph_name (d : ds) (oa : option garg) : cid :=
+  match oa with None => FRESH_BASE + fresh d | Some a => arg_name a end.
+
+(* Dataset.graphs(triple): the contexts of the triple, and the default graph
+   re-created and yielded when it is not among them; ConjunctiveGraph.contexts(triple)
+   just lists *)
+Definition cg_contexts_of (d : ds) (t : triple) : ds * list cid :=
+  let l := ctxs_of t (quads (st d)) in
+  if is_ds d then
+    if memb N.eqb 0 l then (d, l) else (set_st d (st_add_graph (st d) 0), l ++ [0])
+  else (d, l).
 
 Definition do_op (d : ds) (o : op) : ds * res :=
   match o with
-  | OAdd t ca => (cg_add d t ca, RNone)
-  | OAddN l => (cg_addN d l, RNone)
-  | ORemove p ca => (cg_remove d p ca, RNone)
-  | OGraph oa => (ds_graph d oa, RNone)
-  | ORemoveGraph oa => (ds_remove_graph d oa, RNone)
+  | OAdd t ca => (cg_add d t ca, RSelf)
+  | OAddN l => (cg_addN d l, RSelf)
+  | ORemove p ca => (cg_remove d p ca, RSelf)
+  | OGraph oa => (ds_graph d oa, RNames [ds_graph_name d oa])
+  | ORemoveGraph oa => (ds_remove_graph d oa, RSelf)
   | ORemoveContext c => (cg_remove_context d c, RNone)
   | OTriples p ca kw du => let (d1, l) := cg_triples d p ca kw du in (d1, RTriples l)
   | OQuads p ca => let (d1, l) := cg_quads d p ca in (d1, RQuads l)
   | OContains p ca du => let (d1, b) := cg_contains d p ca du in (d1, RBool b)
+  | OContexts t => let (d1, l) := cg_contexts_of d t in (d1, RNames l)
   end.
 
 (* what is looked at after every operation *)
@@ -319,6 +338,8 @@ Definition cseteqb := seteqb N.eqb.
 Definition res_eqb (a b : res) : bool :=
   match a, b with
   | RNone, RNone => true
+  | RSelf, RSelf => true
+  | RNames x, RNames y => cseteqb x y
   | RTriples x, RTriples y => tseteqb x y
   | RQuads x, RQuads y => qseteqb x y
   | RBool x, RBool y => Bool.eqb x y
@@ -372,7 +393,7 @@ Definition eff_graph (ca : ctxarg) (kw : option garg) : option cid :=
   end.
 
 Definition is_read (o : op) : bool :=
-  match o with OTriples _ _ _ _ | OQuads _ _ | OContains _ _ _ => true | _ => false end.
+  match o with OTriples _ _ _ _ | OQuads _ _ | OContains _ _ _ | OContexts _ => true | _ => false end.
 
 Definition sp_step (sp : dspec) (o : op) : dspec :=
   match o with
@@ -396,7 +417,7 @@ Definition sp_step (sp : dspec) (o : op) : dspec :=
       {| sq := q_remove pall (Some c) (sq sp);
          sk := if N.eqb c 0 then sk sp else srem N.eqb c (sk sp); sf := sf sp |}
   | ORemoveContext c => {| sq := q_remove pall (Some c) (sq sp); sk := sk sp; sf := sf sp |}
-  | OTriples _ _ _ _ | OQuads _ _ | OContains _ _ _ => sp
+  | OTriples _ _ _ _ | OQuads _ _ | OContains _ _ _ | OContexts _ => sp
   end.
 
 Definition sp_graph (sp : dspec) (c : cid) (p : pat) : list triple := q_triples p c (sq sp).
@@ -417,12 +438,22 @@ Definition tenum (l s : list triple) : bool := enum_ofb triple_eqb l s.
 Definition qenum (l s : list quad) : bool := enum_ofb quad_eqb l s.
 Definition cenum (l s : list cid) : bool := enum_ofb N.eqb l s.
 
-Definition res_ok (sp : dspec) (o : op) (r : res) : bool :=
+(* the graphs holding a triple; a Dataset lists its default graph in any case *)
+Definition sp_contexts_of (dataset : bool) (sp : dspec) (t : triple) : list cid :=
+  let l := ctxs_of t (sq sp) in if dataset then sadd N.eqb 0%N l else l.
+
+Definition res_ok (dataset : bool) (sp : dspec) (o : op) (r : res) : bool :=
   match o, r with
   | OTriples p ca kw du, RTriples l => tenum l (sp_triples sp p (eff_graph ca kw) du)
   | OQuads p ca, RQuads l => qenum l (sp_quads sp p ca)
   | OContains p ca du, RBool b => Bool.eqb b (negb (is_nil (sp_triples sp p (eff_graph ca None) du)))
-  | (OAdd _ _ | OAddN _ | ORemove _ _ | OGraph _ | ORemoveGraph _ | ORemoveContext _), RNone => true
+  | OContexts t, RNames l => cenum l (sp_contexts_of dataset sp t)
+  (* graph()/add_graph() hand back the graph of that name (a fresh name when none is given) *)
+  | OGraph oa, RNames l =>
+      list_eqb N.eqb l [match oa with None => FRESH_BASE + sf sp | Some a => arg_name a end]
+  (* add, addN, remove, remove_graph return the front end; remove_context returns None *)
+  | (OAdd _ _ | OAddN _ | ORemove _ _ | ORemoveGraph _), RSelf => true
+  | ORemoveContext _, RNone => true
   | _, _ => false
   end.
 
@@ -447,7 +478,7 @@ Fixpoint spec_run (c : case) (sp : dspec) (ops : list op) (o : obs) : bool :=
   | [], [] => true
   | x :: r, (rs, sn) :: o' =>
       let sp' := sp_step sp x in
-      res_ok sp x rs && snap_ok c sp' sn && spec_run c sp' r o'
+      res_ok (c_ds c) sp x rs && snap_ok c sp' sn && spec_run c sp' r o'
   | _, _ => false
   end.
 
